@@ -585,6 +585,48 @@ pub(crate) fn checking_from_elem<T: Clone>(elem: T, n: usize) -> Vec<T> {
     kani::assume(false);
     Vec::new()
 }
+// Native replay of the C12 harnesses: the checking stubs above exist only under Kani, so the playback build (cargo test,
+// cfg(test)) observes allocation requests with a counting global allocator instead and re-checks the same bound.
+#[cfg(test)]
+pub(crate) mod native_alloc {
+    use std::alloc::{GlobalAlloc, Layout, System};
+    use std::sync::atomic::{AtomicUsize, Ordering};
+    pub static MAX_REQ: AtomicUsize = AtomicUsize::new(0);
+    pub struct Counting;
+    unsafe impl GlobalAlloc for Counting {
+        unsafe fn alloc(&self, l: Layout) -> *mut u8 {
+            MAX_REQ.fetch_max(l.size(), Ordering::Relaxed);
+            System.alloc(l)
+        }
+        unsafe fn dealloc(&self, p: *mut u8, l: Layout) {
+            System.dealloc(p, l)
+        }
+        unsafe fn alloc_zeroed(&self, l: Layout) -> *mut u8 {
+            MAX_REQ.fetch_max(l.size(), Ordering::Relaxed);
+            System.alloc_zeroed(l)
+        }
+        unsafe fn realloc(&self, p: *mut u8, l: Layout, n: usize) -> *mut u8 {
+            MAX_REQ.fetch_max(n, Ordering::Relaxed);
+            System.realloc(p, l, n)
+        }
+    }
+    #[global_allocator]
+    static GLOBAL: Counting = Counting;
+}
+/// native replay only (no-op under Kani): forget the requests seen so far
+pub(crate) fn native_reservation_reset() {
+    #[cfg(test)]
+    native_alloc::MAX_REQ.store(0, std::sync::atomic::Ordering::Relaxed);
+}
+/// native replay only (no-op under Kani): the largest single allocation request since the reset is within the bound
+pub(crate) fn native_reservation_check() {
+    #[cfg(test)]
+    {
+        let m = native_alloc::MAX_REQ.load(std::sync::atomic::Ordering::Relaxed) as u128;
+        let bound = reservation_bound(unsafe { C12_INPUT_LEN });
+        assert!(m <= bound, "native: largest single allocation request {} B > 64 MiB + 8192 * input bytes = {} B", m, bound);
+    }
+}
 pub(crate) fn max_reservation() -> u128 {
     unsafe { MAX_RESERVATION }
 }
